@@ -120,7 +120,7 @@ def CountsOk (m : MO) : Prop :=
 /-- every array that is set has `norb` entries (columns) -/
 def LensOk (m : MO) : Prop := ∀ f a, get m f = some a → norb m = some a.length
 
-/-- the invariant of constructed objects under array / occsa / occsb assignments -/
+/-- the invariant of constructed objects under array / occsa / occsb / kind / norba / norbb assignments -/
 def Inv (m : MO) : Prop := CountsOk m ∧ LensOk m ∧ (m.aminusb ≠ none → m.kind = .restricted)
 
 theorem get_put (m : MO) (f g : Fld) (v : Option (List Rat)) :
@@ -459,6 +459,211 @@ theorem inv_construct {a m : MO} (h : construct a = .ok m) : Inv m := by
   have := construct_ok_eq h; subst this
   exact (construct_ok_iff m).mp h
 
+/-! ### re-assignment of kind / norba / norbb (`reassign`) -/
+
+theorem firstErr_none_inv {a : MO} (h : firstErr (initChecks a) = none) : Inv a := by
+  have : construct a = .ok a := by unfold construct; rw [h]
+  exact (construct_ok_iff a).mp this
+
+theorem inv_firstErr_none {a : MO} (h : Inv a) : firstErr (initChecks a) = none := by
+  have := (construct_ok_iff a).mpr h
+  unfold construct at this
+  cases hf : firstErr (initChecks a) with
+  | none => rfl
+  | some e => rw [hf] at this; cases this
+
+/-- a re-assignment either raises and leaves the object unchanged, or stores the new value -/
+theorem reassign_cases (m m' : MO) (own : Option Err) (same : Bool) :
+    (∃ e, reassign m m' own same = (m, some e)) ∨ reassign m m' own same = (m', none) := by
+  unfold reassign
+  cases own with
+  | some e => exact Or.inl ⟨e, rfl⟩
+  | none =>
+    cases same with
+    | true => exact Or.inr rfl
+    | false =>
+      simp only [Bool.false_eq_true, if_false]
+      cases firstErr (initChecks m') with
+      | some e => exact Or.inl ⟨e, rfl⟩
+      | none => exact Or.inr rfl
+
+theorem reassign_ok_state {m m' : MO} {own : Option Err} {same : Bool}
+    (h : (reassign m m' own same).2 = none) : reassign m m' own same = (m', none) := by
+  rcases reassign_cases m m' own same with ⟨e, he⟩ | he
+  · rw [he] at h; cases h
+  · exact he
+
+theorem reassign_err_state {m m' : MO} {own : Option Err} {same : Bool} {e : Err}
+    (h : (reassign m m' own same).2 = some e) : reassign m m' own same = (m, some e) := by
+  rcases reassign_cases m m' own same with ⟨e', he⟩ | he
+  · rw [he] at h ⊢; cases h; rfl
+  · rw [he] at h; cases h
+
+/-- accepted exactly when the modified object satisfies the invariant (`hsame`: an unchanged value gives
+the same object; `hown`: the attribute's own validator is implied by the invariant of the result) -/
+theorem reassign_ok_iff {m m' : MO} {own : Option Err} {same : Bool} (hi : Inv m)
+    (hsame : same = true → m' = m) (hown : Inv m' → own = none) :
+    (reassign m m' own same).2 = none ↔ Inv m' := by
+  unfold reassign
+  constructor
+  · intro h
+    cases own with
+    | some e => cases h
+    | none =>
+      cases same with
+      | true => rw [hsame rfl]; exact hi
+      | false =>
+        simp only [Bool.false_eq_true, if_false] at h
+        cases hf : firstErr (initChecks m') with
+        | some e => rw [hf] at h; cases h
+        | none => exact firstErr_none_inv hf
+  · intro h
+    rw [hown h]
+    cases same with
+    | true => rfl
+    | false => simp only [Bool.false_eq_true, if_false]; rw [inv_firstErr_none h]
+
+theorem inv_reassign {m m' : MO} (hi : Inv m) (own : Option Err) {same : Bool} (hsame : same = true → m' = m) :
+    Inv (reassign m m' own same).1 := by
+  unfold reassign
+  cases own with
+  | some e => exact hi
+  | none =>
+    cases same with
+    | true => simp only [if_true]; rw [hsame rfl]; exact hi
+    | false =>
+      simp only [Bool.false_eq_true, if_false]
+      cases hf : firstErr (initChecks m') with
+      | some e => exact hi
+      | none => exact firstErr_none_inv hf
+
+theorem setKind_same (m : MO) (k : Kind) (h : (m.kind == k) = true) : { m with kind := k } = m := by
+  have := eq_of_beq h; subst this; rfl
+
+theorem setNorba_same (m : MO) (v : Option Nat) (h : (m.norba == v) = true) : { m with norba := v } = m := by
+  have := eq_of_beq h; subst this; rfl
+
+theorem setNorbb_same (m : MO) (v : Option Nat) (h : (m.norbb == v) = true) : { m with norbb := v } = m := by
+  have := eq_of_beq h; subst this; rfl
+
+theorem vKind_of_counts {m : MO} (k : Kind) (h : CountsOk { m with kind := k }) : vKind k = none :=
+  ((countsOk_iff_checks _).mp h).1
+
+theorem vNorba_of_counts {m : MO} (v : Option Nat) (h : CountsOk { m with norba := v }) : vNorbab m true v = none :=
+  ((countsOk_iff_checks _).mp h).2.1
+
+theorem vNorbb_of_counts {m : MO} (v : Option Nat) (h : CountsOk { m with norbb := v }) : vNorbab m false v = none :=
+  ((countsOk_iff_checks _).mp h).2.2
+
+theorem inv_setKind {m : MO} (hi : Inv m) (k : Kind) : Inv (setKind m k).1 :=
+  inv_reassign hi _ (setKind_same m k)
+
+theorem inv_setNorba {m : MO} (hi : Inv m) (v : Option Nat) : Inv (setNorba m v).1 :=
+  inv_reassign hi _ (setNorba_same m v)
+
+theorem inv_setNorbb {m : MO} (hi : Inv m) (v : Option Nat) : Inv (setNorbb m v).1 :=
+  inv_reassign hi _ (setNorbb_same m v)
+
+/-! #### which exception: `ValueError` for kind/count contradictions, `TypeError` for lengths -/
+
+theorem vKind_err (k : Kind) : vKind k = none ∨ vKind k = some .valueError := by
+  unfold vKind; split <;> simp
+
+theorem vNorbab_err (m : MO) (isA : Bool) (v : Option Nat) :
+    vNorbab m isA v = none ∨ vNorbab m isA v = some .valueError := by
+  unfold vNorbab
+  split
+  · split <;> simp
+  · split
+    · simp
+    · split
+      · simp only; split <;> simp <;> exact Classical.em _
+      · simp
+
+theorem vShape_err (m : MO) (v : Option (List Rat)) : vShape m v = none ∨ vShape m v = some .typeError := by
+  unfold vShape
+  split
+  · simp
+  · split <;> simp
+
+theorem vShape_bad {m : MO} {v : Option (List Rat)} {x : List Rat} (h : v = some x)
+    (hs : shapeOk m x.length = false) : vShape m v = some .typeError := by
+  subst h; simp [vShape, hs]
+
+theorem vAminusb_bad {m : MO} {v : Option (List Rat)} {x : List Rat} (h : v = some x)
+    (hs : shapeOk m x.length = false) : vAminusb m v = some .typeError := by
+  simp [vAminusb, vShape_bad h hs]
+
+theorem vAminusb_err (m : MO) (v : Option (List Rat)) :
+    vAminusb m v = none ∨ vAminusb m v = some .typeError ∨
+      (vAminusb m v = some .valueError ∧ vShape m v = none) := by
+  unfold vAminusb
+  rcases vShape_err m v with h | h
+  · rw [h]; simp only; split <;> simp
+  · rw [h]; simp
+
+/-- the exception raised by the validators of a whole object (constructor, or the copy made by
+`validate_change`): `ValueError` when kind and counts contradict each other, else `TypeError` when some
+array has the wrong length, else `ValueError` for `occs_aminusb` on a non-restricted kind -/
+theorem firstErr_initChecks (a : MO) :
+    (¬ CountsOk a → firstErr (initChecks a) = some .valueError) ∧
+    (CountsOk a → (∃ f x, get a f = some x ∧ shapeOk a x.length = false) →
+      firstErr (initChecks a) = some .typeError) ∧
+    (CountsOk a → (∀ f x, get a f = some x → shapeOk a x.length = true) → a.aminusb ≠ none →
+      a.kind ≠ .restricted → firstErr (initChecks a) = some .valueError) := by
+  refine ⟨?_, ?_, ?_⟩
+  · intro hc
+    rw [countsOk_iff_checks] at hc
+    rcases vKind_err a.kind with h1 | h1
+    · rcases vNorbab_err a true a.norba with h2 | h2
+      · rcases vNorbab_err a false a.norbb with h3 | h3
+        · exact absurd ⟨h1, h2, h3⟩ hc
+        · simp [initChecks, firstErr, h1, h2, h3]
+      · simp [initChecks, firstErr, h1, h2]
+    · simp [initChecks, firstErr, h1]
+  · intro hc ⟨f, x, hg, hs⟩
+    obtain ⟨h1, h2, h3⟩ := (countsOk_iff_checks a).mp hc
+    rcases vShape_err a a.occs with h4 | h4 <;> rcases vShape_err a a.coeffs with h5 | h5 <;>
+      rcases vShape_err a a.energies with h6 | h6 <;> rcases vShape_err a a.irreps with h7 | h7 <;>
+      (try simp [initChecks, firstErr, h1, h2, h3, h4, h5, h6, h7])
+    -- all four array validators pass: the bad one is `occs_aminusb`
+    cases f
+    · rw [vShape_bad (show a.occs = some x from hg) hs] at h4; cases h4
+    · rw [vShape_bad (show a.coeffs = some x from hg) hs] at h5; cases h5
+    · rw [vShape_bad (show a.energies = some x from hg) hs] at h6; cases h6
+    · rw [vShape_bad (show a.irreps = some x from hg) hs] at h7; cases h7
+    · simp [firstErr, vAminusb_bad (show a.aminusb = some x from hg) hs]
+  · intro hc hall hab hk
+    obtain ⟨h1, h2, h3⟩ := (countsOk_iff_checks a).mp hc
+    have h4 := (vShape_none_iff a a.occs).mpr (fun x hx => hall .occs x hx)
+    have h5 := (vShape_none_iff a a.coeffs).mpr (fun x hx => hall .coeffs x hx)
+    have h6 := (vShape_none_iff a a.energies).mpr (fun x hx => hall .energies x hx)
+    have h7 := (vShape_none_iff a a.irreps).mpr (fun x hx => hall .irreps x hx)
+    have h8 := (vShape_none_iff a a.aminusb).mpr (fun x hx => hall .aminusb x hx)
+    have hsome : a.aminusb.isSome = true := by
+      cases h : a.aminusb with
+      | none => exact absurd h hab
+      | some _ => rfl
+    simp [initChecks, firstErr, h1, h2, h3, h4, h5, h6, h7, vAminusb, h8, hk, hsome]
+
+/-- the exception of a rejected re-assignment of a CHANGED value (`same = false`), given that the
+attribute's own validator only raises `ValueError` and passes whenever the new counts are consistent -/
+theorem reassign_error_class {m m' : MO} {own : Option Err}
+    (hown : CountsOk m' → own = none) (hcls : own = none ∨ own = some .valueError) :
+    (¬ CountsOk m' → reassign m m' own false = (m, some .valueError)) ∧
+    (CountsOk m' → (∃ f x, get m' f = some x ∧ shapeOk m' x.length = false) →
+      reassign m m' own false = (m, some .typeError)) ∧
+    (CountsOk m' → (∀ f x, get m' f = some x → shapeOk m' x.length = true) → m'.aminusb ≠ none →
+      m'.kind ≠ .restricted → reassign m m' own false = (m, some .valueError)) := by
+  obtain ⟨e1, e2, e3⟩ := firstErr_initChecks m'
+  refine ⟨?_, ?_, ?_⟩
+  · intro hc
+    rcases hcls with h | h
+    · simp [reassign, h, e1 hc]
+    · simp [reassign, h]
+  · intro hc hb; simp [reassign, hown hc, e2 hc hb]
+  · intro hc h1 h2 h3; simp [reassign, hown hc, e3 hc h1 h2 h3]
+
 theorem inv_step {m : MO} (hi : Inv m) (op : Op) : Inv (step m op).1 := by
   cases op with
   | construct a =>
@@ -469,6 +674,9 @@ theorem inv_step {m : MO} (hi : Inv m) (op : Op) : Inv (step m op).1 := by
   | set f v => exact inv_store hi f v
   | setOccsa v => exact inv_setOccsa hi v
   | setOccsb v => exact inv_setOccsb hi v
+  | setKind k => exact inv_setKind hi k
+  | setNorba v => exact inv_setNorba hi v
+  | setNorbb v => exact inv_setNorbb hi v
 
 theorem inv_run {m : MO} (hi : Inv m) (ops : List Op) : Inv (run m ops) := by
   induction ops generalizing m with
